@@ -560,7 +560,7 @@ class PhyBo(Wordlist):
                     # check for identity of states
                     if sum(states) == len(states):
                         d[node.Name] = 1
-                    elif sum(states) == 0:
+                    elif sum(states) == 0 and (node is not subtree or s[1] != 1):
                         d[node.Name] = 0
                     else:
                         d[node.Name] = 1
